@@ -88,6 +88,18 @@ func (v *Verifier) discharge(o *Obligation, dir string, timeoutMs int, all bool)
 		want = "sat"
 	}
 	order := []string{"z3-new", "cvc5", "z3"}
+	if o.Kind == "frame-undeclared" {
+		// static finding: only an infeasible path excuses it (one short query)
+		res, _, ms := runSolver(context.Background(), solvers["z3-new"], file, 3000)
+		o.Ms += ms
+		if res == "unsat" {
+			o.Result, o.Solver, o.Output = "unsat", "z3-new", "path infeasible"
+		} else {
+			o.Result = "undeclared"
+			o.Output = "the function gives this component a new version (a write at a reference it allocated) but its contract lists it neither under modifies nor under allocates"
+		}
+		return
+	}
 	if o.IsCover {
 		order = []string{"z3-new"}
 		if timeoutMs > 3000 {
@@ -196,7 +208,7 @@ func (v *Verifier) chunkStage(obls []*Obligation, dir string, perCheckMs int, wo
 		cur = nil
 	}
 	for _, o := range obls {
-		if o.IsCover || o.Result != "" {
+		if o.IsCover || o.Result != "" || o.Kind == "frame-undeclared" {
 			continue
 		}
 		if len(cur) > 0 && (cur[0].Fn != o.Fn || cur[0].Theory != o.Theory || len(cur) >= chunkSize) {
